@@ -1,5 +1,9 @@
 def T(name, variant, *args, **kw):
     d = dict(name=name, harness='h_string.c', variant=variant, args=list(args))
+    if variant == 'asan':
+        # UBSan prints (and symbolises, ~70 ms) its report before the crash-probe child can leave;
+        # one line per report is enough here, the case is replayable
+        d['env'] = {'UBSAN_OPTIONS': 'print_stacktrace=0'}
     d.update(kw)
     return d
 
@@ -14,20 +18,20 @@ CHECK = {
            'libc are first tried in a forked child sharing the state so that a crash is one terminal transition, not the end of the exploration; '
            'distinct_nontrivial = states whose content holds some operand at two different (possibly overlapping) offsets'),
   'bounds': {
-    'quick': 'content over {a,b} up to length 5 (gcc) and up to length 3 (ASan+UBSan); operands = all 7 strings of length <= 2; resize(n) for n <= len+2; print_to at every pos <= len',
+    'quick': 'content over {a,b} up to length 5 (gcc) and up to length 4 (ASan+UBSan; 3 with aliased operands); operands = all 7 strings of length <= 2; resize(n) for n <= len+2; print_to at every pos <= len',
     'thorough': 'content over {a,b,c} up to length 6 with operands of length <= 2 (13), {a,b,c} up to 5 and {a,b} up to 8 with operands of length <= 3; ASan+UBSan: {a,b} up to 6 and {a,b,c} up to 4',
   },
   'assumptions': [
     'contents over a 2- or 3-letter alphabet represent all contents (String code treats bytes uniformly; cmp is additionally evaluated against bytes below/above the alphabet and >= 0x80)',
     'resize(n > len): the property does not fix the padding; required are NUL termination inside the allocation, room for n characters and the old content as a prefix (this implementation pads with NUL, i.e. the C string is unchanged)',
     'rem of an absent substring: the string must be unchanged; an exception is optional but must be ValueError or KeyError',
-    'aliased arguments (assign(s,s), concat(s,s)) are outside the property text and explored only with alias=1 (not part of the verdict)',
+    'aliased arguments (the operand IS the target: assign(s,s), concat(s,s), rem(s,s)) are the limiting case of "equal in value to the target"; they are explored by separate *-alias instances (alias=1) so that they can be dropped if aliasing is ruled out of scope',
     'gcc/clang, glibc (strcmp/strstr/strlen/memmove/malloc_usable_size) and the sanitizer run-times are trusted',
   ],
   'instances': {
     'quick': [
       T('ab5', 'base', 'alpha=2', 'maxlen=5'),
-      T('ab3-asan', 'asan', 'alpha=2', 'maxlen=3'),
+      T('ab4-asan', 'asan', 'alpha=2', 'maxlen=4'),
       # the argument IS the target: assign(s,s), concat(s,s), rem(s,s) added to the alphabet
       T('ab3-alias-asan', 'asan', 'alpha=2', 'maxlen=3', 'alias=1'),
       T('ab4-alias', 'base', 'alpha=2', 'maxlen=4', 'alias=1'),
